@@ -173,13 +173,13 @@ contract(SHO + 'Shomate.get_GoRT', P, label='array-is-map',
          ensures=['all(at(result, i) == self.get_GoRT(T=T[i]) for i in range(len(T)))'])
 
 # ---- a species carrying a coverage effect (an adsorbate): the relations of the property hold for the whole species ----------
-def adsorbate(cls):
+def adsorbate(cls, amax=50.):
     cov = New('pmutt.mixture.cov:PiecewiseCovEffect', name_i=Const('A'), name_j=Const('B'),
               intervals=ListOf([Const(0.), Real(0.2, 0.6)]), slopes=RealList(2, -30., 30.))
     if cls == 'Nasa':
         return New(NASA + 'Nasa', name=Const('A'), T_low=Real(50., 400.), T_mid=Real(500., 1500.), T_high=Real(2000., 6000.),
-                   a_low=RealVec(7, -50., 50.), a_high=RealVec(7, -50., 50.), phase=Const('s'), misc_models=ListOf([cov]))
-    return New(SHO + 'Shomate', name=Const('A'), T_low=Real(50., 400.), T_high=Real(2000., 6000.), a=RealVec(8, -50., 50.),
+                   a_low=RealVec(7, -amax, amax), a_high=RealVec(7, -amax, amax), phase=Const('s'), misc_models=ListOf([cov]))
+    return New(SHO + 'Shomate', name=Const('A'), T_low=Real(50., 400.), T_high=Real(2000., 6000.), a=RealVec(8, -amax, amax),
                phase=Const('s'), misc_models=ListOf([cov]))
 
 
@@ -188,7 +188,12 @@ for cls, req in (('Nasa', ORDERED + ['T > 0', 'T != self.T_mid']), ('Shomate', [
           forall=dict(self=adsorbate(cls), T=Real(100., 3000.), x=Real(0., 1.)), given=req + ['x >= 0'],
           prove=[('dH/dT=Cp', 'D(T * self.get_HoRT(T=T, x=x), T) == self.get_CpoR(T=T, x=x)'),
                  ('G=H-TS', 'self.get_GoRT(T=T, x=x) == self.get_HoRT(T=T, x=x) - self.get_SoR(T=T, x=x)'),
-                 ('coverage-energy-is-the-same-at-every-temperature',
+                 ])
+    # the coverage energy itself does not depend on the temperature (species with a small polynomial part, so that the
+    # difference of two species enthalpies is well conditioned in floating point too)
+    lemma('adsorbate-with-coverage-effect[%s]:coverage-energy' % cls, P,
+          forall=dict(self=adsorbate(cls, 1e-9), T=Real(100., 1400.), x=Real(0., 1.)), given=req + ['x >= 0'],
+          prove=[('coverage-energy-is-the-same-at-every-temperature',
                   'T * (self.get_HoRT(T=T, x=x) - self.get_HoRT(T=T, x=0.)) == 2 * T * (self.get_HoRT(T=2 * T, x=x) - self.get_HoRT(T=2 * T, x=0.))')])
 
 # ---- larger shapes (declared bounded: the same clauses, run natively on samples; never counted as proved) -----------------------
